@@ -203,7 +203,7 @@ pub fn api_variants<E: Entry>(g: &mut Gen, st: &mut Stats) -> CaseResult {
 macro_rules! av_row { ($e:ident) => { api_variants::<$e> as vcore::engine::RandomFn } }
 fn variants(g: &mut Gen, st: &mut Stats) -> CaseResult {
     static T: std::sync::OnceLock<Vec<vcore::engine::RandomFn>> = std::sync::OnceLock::new();
-    let t = T.get_or_init(|| crate::for_each_entry!(av_row));
+    let t = T.get_or_init(|| crate::for_each_core_entry!(av_row));
     t[g.below(t.len())](g, st)
 }
 
